@@ -81,6 +81,50 @@ func (x *hist) bad(kind, detail string) {
 	x.anoms = append(x.anoms, anomaly{kind, x.name, x.h, detail})
 	x.mu.Unlock()
 }
+// Scheduling-delay monitor: promptness bounds are statements about the server, not about a starved test process. A
+// goroutine sleeps 2 ms at a time and records by how much each sleep overshot; a timing anomaly is a verdict only when
+// no overshoot above 50 ms was seen in the second around it (otherwise it is counted as inconclusive).
+var jitMu sync.Mutex
+var jit []struct {
+	at   time.Time
+	over time.Duration
+}
+var timingInconclusive int32
+
+func jitterMonitor() {
+	for {
+		t := time.Now()
+		time.Sleep(2 * time.Millisecond)
+		if over := time.Since(t) - 2*time.Millisecond; over > 20*time.Millisecond {
+			jitMu.Lock()
+			jit = append(jit, struct {
+				at   time.Time
+				over time.Duration
+			}{t, over})
+			jitMu.Unlock()
+		}
+	}
+}
+func starved(from time.Time, to time.Time) bool {
+	jitMu.Lock()
+	defer jitMu.Unlock()
+	for _, j := range jit {
+		if j.over > 50*time.Millisecond && j.at.After(from.Add(-time.Second)) && j.at.Before(to.Add(time.Second)) {
+			return true
+		}
+	}
+	return false
+}
+
+// timing reports a promptness anomaly unless the process itself was being starved around that time
+func (x *hist) timing(kind, detail string, from time.Time) {
+	if starved(from, time.Now()) {
+		atomic.AddInt32(&timingInconclusive, 1)
+		return
+	}
+	x.bad(kind, detail)
+}
+
 func isNil(r impl.Reply) bool { return r.K == "nil" }
 func pair(r impl.Reply) (string, string, bool) {
 	if r.K == "arr" && len(r.A) == 2 {
@@ -95,6 +139,7 @@ func main() {
 	out := flag.String("out", "blockpop.ndjson", "history file")
 	flag.Parse()
 	rnd := rand.New(rand.NewSource(*seed))
+	go jitterMonitor()
 	var hs []*hist
 	var wg sync.WaitGroup
 	n := 0
@@ -117,7 +162,7 @@ func main() {
 					x.bad("wrong-reply", fmt.Sprintf("%s l 1 with elements present replied %s %v", cmd, o.Reply.K, o.Reply.A))
 				}
 				if o.Dur > 500*time.Millisecond {
-					x.bad("not-prompt", fmt.Sprintf("%s with an element available took %v", cmd, o.Dur))
+					x.timing("not-prompt", fmt.Sprintf("%s with an element available took %v", cmd, o.Dur), o.Start)
 				}
 				x.do("LRANGE", "l", "0", "-1")
 			})
@@ -127,7 +172,11 @@ func main() {
 					x.bad("wrong-reply", fmt.Sprintf("%s on an empty key with timeout 1 replied %s", cmd, o.Reply.K))
 				}
 				if o.Dur < 950*time.Millisecond || o.Dur > 2200*time.Millisecond {
-					x.bad("timeout-bound", fmt.Sprintf("%s l 1 on an empty key returned after %v (want 1 s .. 2.2 s)", cmd, o.Dur))
+					if o.Dur < 950*time.Millisecond {
+						x.bad("timeout-bound", fmt.Sprintf("%s l 1 on an empty key returned after %v (before its timeout)", cmd, o.Dur))
+					} else {
+						x.timing("timeout-bound", fmt.Sprintf("%s l 1 on an empty key returned after %v (want 1 s .. 2.2 s)", cmd, o.Dur), o.Start)
+					}
 				}
 				x.do("EXISTS", "l")
 			})
@@ -144,10 +193,10 @@ func main() {
 						x.bad("wrong-reply", fmt.Sprintf("blocked %s did not receive the pushed element: %s %v", cmd, o.Reply.K, o.Reply.A))
 					}
 					if d := time.Since(pushAt); d > time.Second {
-						x.bad("not-prompt", fmt.Sprintf("blocked %s answered %v after the push", cmd, d))
+						x.timing("not-prompt", fmt.Sprintf("blocked %s answered %v after the push", cmd, d), pushAt)
 					}
-				case <-time.After(5 * time.Second):
-					x.bad("hang", cmd+" l 3 did not return within 5 s although an element was pushed")
+				case <-time.After(30 * time.Second):
+					x.bad("hang", cmd+" l 3 did not return within 30 s although an element was pushed")
 				}
 				x.do("LLEN", "l")
 				x.do("EXISTS", "l")
@@ -167,8 +216,8 @@ func main() {
 						} else if !isNil(o.Reply) {
 							x.bad("wrong-reply", fmt.Sprintf("popper got %s %v", o.Reply.K, o.Reply.A))
 						}
-					case <-time.After(5 * time.Second):
-						x.bad("hang", "a popper with timeout 1 did not return within 5 s")
+					case <-time.After(30 * time.Second):
+						x.bad("hang", "a popper with timeout 1 did not return within 30 s")
 					}
 				}
 				if got != 1 {
@@ -212,8 +261,8 @@ func main() {
 					if _, e, ok := pair(o.Reply); ok {
 						seen[e]++
 					}
-				case <-time.After(5 * time.Second):
-					x.bad("hang", "a popper with timeout 1 did not return within 5 s")
+				case <-time.After(30 * time.Second):
+					x.bad("hang", "a popper with timeout 1 did not return within 30 s")
 				}
 			}
 			for e, c := range seen {
@@ -277,5 +326,5 @@ func main() {
 		parts = append(parts, fmt.Sprintf("%q:%d", k, v))
 	}
 	sort.Strings(parts)
-	fmt.Printf("SUMMARY {\"scenarios\":%d,\"operations\":%d,\"anomalies\":%d,\"by_scenario\":{%s}}\n", len(hs), nops, nanom, strings.Join(parts, ","))
+	fmt.Printf("SUMMARY {\"scenarios\":%d,\"operations\":%d,\"anomalies\":%d,\"timing_inconclusive_process_starved\":%d,\"by_scenario\":{%s}}\n", len(hs), nops, nanom, atomic.LoadInt32(&timingInconclusive), strings.Join(parts, ","))
 }
